@@ -136,7 +136,10 @@ TCopied == /\ IsEvent("asm.copied")
                    \cup Flag((Snap /\ ~Ev.err /\ k > 0 /\ plan[k].kind = 1) => \A p \in r[1]..r[2] : Ev.t[p] = 0,
                              "null-chunk section does not hold zeros after the copy")
                    \cup Flag((Snap /\ ~Ev.err /\ k > 0 /\ plan[k].kind = 2 /\ ~mutated /\ plan[k].seed \notin regenerated
-                              /\ ~h.aliases[plan[k].seed] /\ QPos(plan[k].seed, plan[k].start) > 0)
+                              /\ ~h.aliases[plan[k].seed] /\ QPos(plan[k].seed, plan[k].start) > 0
+                              \* 99999: the range is not completely in the seed file (truncated seed used without validation, e.g. after a
+                              \* cancellation): what a copy of it leaves is not defined here; the re-hash step decides
+                              /\ \A i \in 0..(plan[k].last - plan[k].first) : SeedCells(plan[k])[i] # 99999)
                              => \A p \in r[1]..r[2] : Ev.t[p] = SeedCells(plan[k])[p - r[1]],
                              "target does not hold the seed's bytes after the copy")
            /\ TakeSnap /\ WUnch /\ UNCHANGED <<offered, inflight, done, exited, workerErr, storefail>>
